@@ -625,6 +625,37 @@ func (cx *Ctx) c07Real(r *rng, n, procs int, gc genCfg, simResults []JobResult) 
 			spans = append(spans, [2]int{a, b})
 		}
 	}
+	// a few large inputs for the real runtime only (not simulated: a 60-node graph costs the instrumented build minutes):
+	// code paths guarded by size thresholds (edge lists of 128+, wide layers) and chosen per machine are reached only there
+	{
+		var big []spec.Call
+		for i := 0; i < 3; i++ {
+			n := r.between(50, 60)
+			var es [][]string
+			for v := 1; v < n; v++ {
+				es = append(es, edge(r.intn(v), v))
+			}
+			for len(es) < n+r.between(75, 95) {
+				a, b := r.intn(n), r.intn(n)
+				if a < b {
+					es = append(es, edge(a, b))
+				}
+			}
+			shuffleEdges(r, es)
+			big = append(big, spec.Call{Edges: es, Opts: spec.Options{P5: "straight", P1: pick(r, "", "dfs")}})
+		}
+		for i := 0; i < 1; i++ {
+			es := famDAG(r, true)
+			if len(es) > 60 {
+				es = es[:60]
+			}
+			big = append(big, spec.Call{Edges: es, Opts: spec.Options{P4: "ns", P5: "noop", FixedSize: &[2]float64{20, 10}}})
+		}
+		for p := 0; p < procs; p++ {
+			jobs = append(jobs, &spec.Job{ID: len(jobs), Kind: "stress", Calls: big, Goroutines: 1, Rounds: 1})
+			spans = append(spans, [2]int{-1, -1})
+		}
+	}
 	// the k-th process of every input runs in a different environment: what the result may NOT depend on
 	envs := [][]string{
 		nil,
@@ -642,6 +673,7 @@ func (cx *Ctx) c07Real(r *rng, n, procs int, gc genCfg, simResults []JobResult) 
 		}
 		pool := *cx.realFresh
 		pool.Env = envs[p%len(envs)]
+		pool.Timeout = 300 * time.Second
 		for k, r := range pool.Run(sub, nil) {
 			rs[at[k]] = r
 		}
@@ -661,6 +693,20 @@ func (cx *Ctx) c07Real(r *rng, n, procs int, gc genCfg, simResults []JobResult) 
 		}
 		if !ok {
 			continue // a hanging or dying real call is C01's business
+		}
+		if a < 0 {
+			// the large inputs: compared across processes and within each process, no simulated counterpart
+			inputs += len(group[0].Job.Calls)
+			realCalls += len(group[0].Job.Calls) * 2 * procs
+			if v, key, what, fp := cx.oracleReal(group); v {
+				var rj []ReplayJob
+				for _, jr := range group {
+					rj = append(rj, ReplayJob{Pool: "realfresh", Job: *jr.Job})
+				}
+				cx.report(key, what, &ReplayFile{Property: "C07", Oracle: "c07.real", Key: key, What: what, Jobs: rj, Expect: fp,
+					Note: "observed on the real runtime across processes that differ in GOMAXPROCS / time zone / locale / HOME / GOGC; replay the jobs under those environments"})
+			}
+			continue
 		}
 		inputs += b - a
 		realCalls += (b - a) * 4 * procs
